@@ -154,3 +154,81 @@ Proof.
   apply negb_false_iff in J. unfold joint in J. cbn in J. intros E. rewrite E in J. cbn in J. discriminate.
 Qed.
 
+
+(* confchange.Restore: whatever it accepts is a well-formed configuration with a voter, joint
+   exactly when the ConfState names outgoing voters (the set-level round-trip is decided by the
+   tie: closure of the configuration graph in the pure stream) *)
+
+Lemma cc_apply_outgoing mi mb li : forall ccs c p c' p',
+  cc_apply mi mb li c p ccs = inl (c', p') -> c_outgoing c' = c_outgoing c.
+Proof.
+  induction ccs as [|cc ccs IH]; intros c p c' p' H; cbn in H.
+  - destruct (N.eqb _ 0); [discriminate|]. inversion H; reflexivity.
+  - destruct (N.eqb (ccs_node cc) 0); [eapply IH; exact H|].
+    destruct (ccs_type cc); try discriminate.
+    + unfold make_voter in H. destruct (alookup p (ccs_node cc)); cbn in H; apply IH in H; rewrite H;
+        unfold init_progress; reflexivity.
+    + unfold cc_remove in H. destruct (negb _); [apply IH in H; exact H|].
+      destruct (smem _ _); apply IH in H; rewrite H; reflexivity.
+    + eapply IH; exact H.
+    + unfold make_learner in H. destruct (alookup p (ccs_node cc)) as [pr|]; cbn in H.
+      * destruct (pr_is_learner pr); [apply IH in H; exact H|].
+        unfold cc_remove in H. destruct (negb _); cbn in H.
+        -- destruct (smem _ _); apply IH in H; rewrite H; reflexivity.
+        -- destruct (smem (c_outgoing c) (ccs_node cc)) eqn:SM; cbn in H; rewrite ?SM in H; cbn in H;
+             apply IH in H; rewrite H; reflexivity.
+      * apply IH in H. rewrite H. reflexivity.
+Qed.
+
+Lemma changer_simple_nonjoint t li ccs c p :
+  changer_simple t li ccs = inl (c, p) -> c_outgoing c = [].
+Proof.
+  unfold changer_simple. intros H.
+  destruct (check_and_return (cfg_clone (t_config t)) (t_progress t)) as [[c0 p0]|] eqn:E0; [|discriminate].
+  apply check_and_return_ok in E0. destruct E0 as (-> & -> & I0).
+  destruct (joint _) eqn:J; [discriminate|].
+  destruct (cc_apply _ _ _ _ _ _) as [[c2 p2]|] eqn:EA; [|discriminate].
+  destruct (1 <? symdiff _ _) eqn:SD; [discriminate|].
+  apply check_and_return_ok in H. destruct H as (-> & -> & I2).
+  apply cc_apply_outgoing in EA. rewrite EA.
+  unfold joint in J. apply negb_false_iff in J. apply nlen_zero in J. exact J.
+Qed.
+
+Lemma chain_simple_ok li : forall ccs t t',
+  chain_simple t li ccs = inl t' -> ccs <> [] ->
+  cfg_wf (t_config t') (t_progress t') /\ c_voters (t_config t') <> [] /\ c_outgoing (t_config t') = [].
+Proof.
+  induction ccs as [|cc rest IH]; intros t t' H NE; [congruence|].
+  cbn [chain_simple] in H.
+  destruct (changer_simple t li [cc]) as [[c p]|e] eqn:E; [|discriminate].
+  destruct rest as [|cc2 rest2].
+  - cbn in H. inversion H; subst. cbn. apply changer_simple_nonjoint in E as NJ. apply changer_simple_ok in E. tauto.
+  - eapply IH; [exact H|discriminate].
+Qed.
+
+Theorem restore_ok t li cs c p :
+  cc_restore t li cs = inl (c, p) -> cs_voters cs <> [] ->
+  cfg_wf c p /\ c_voters c <> [] /\
+  (cs_voters_outgoing cs <> [] -> c_outgoing c <> [] /\ c_auto_leave c = cs_auto_leave cs) /\
+  (cs_voters_outgoing cs = [] -> c_outgoing c = [] /\ c_learners_next c = [] /\ c_auto_leave c = false).
+Proof.
+  unfold cc_restore, to_cc_single. intros H NV.
+  destruct (cs_voters_outgoing cs) as [|o os] eqn:EO; cbn [map app] in H.
+  - destruct (chain_simple t li _) as [t'|e] eqn:EC; [|discriminate]. inversion H; subst.
+    apply chain_simple_ok in EC.
+    + destruct EC as (W & V & NJ). split; [exact W|]. split; [exact V|]. split; [congruence|].
+      intros _. split; [exact NJ|]. destruct W as (_ & _ & _ & W4). apply W4 in NJ. tauto.
+    + destruct (cs_voters cs); [congruence|discriminate].
+  - destruct (chain_simple t li _) as [t'|e] eqn:EC; [|discriminate].
+    apply changer_enter_joint_ok in H. destruct H as (W & V & O & ON & AL).
+    split; [exact W|]. split; [exact V|]. split; [intros _; split; assumption|congruence].
+Qed.
+
+(* non-vacuity: a joint ConfState with a demoted voter restores from the empty tracker, the
+   result satisfies checkInvariants and serializes back to an equivalent ConfState *)
+Example restore_ok_somewhere :
+  match cc_restore (make_tracker 4 0) 10 (mkConfState [1;2;3] [4] [1;2;5] [5] true) with
+  | inl (c, p) => confstate_equiv (conf_state c) (mkConfState [1;2;3] [4] [1;2;5] [5] true) && check_invariants c p
+  | inr _ => false
+  end = true.
+Proof. vm_compute. reflexivity. Qed.
